@@ -15,7 +15,7 @@ Theorem C17_swizzle_catalogue_complete : forallb P_C17.has P_C17.required_swizzl
 Proof. exact P_C17.swizzle_catalogue_complete. Qed.
 Theorem C17_matrix_constructor_catalogue_complete : forallb P_C17.has P_C17.required_matrix = true /\ List.length P_C17.required_matrix = 126%nat.
 Proof. exact P_C17.matrix_catalogue_complete. Qed.
-Theorem C17_catalogue_sizes : (3300 <=? P_C17.count_prefix "swz_") && (100 <=? P_C17.count_prefix "ctor_") && (160 <=? P_C17.count_prefix "swzw_") = true.
+Theorem C17_catalogue_sizes : (3300 <=? P_C17.count_prefix "swz_") && (100 <=? P_C17.count_prefix "ctor_") && (160 <=? P_C17.count_prefix "swzw_") && (50 <=? P_C17.count_prefix "swzs_") && (200 <=? P_C17.count_prefix "swzc") = true.
 Proof. exact P_C17.catalogue_sizes. Qed.
 (* what the specification functions say, on examples (non-vacuity / readability) *)
 Example C17_spec_examples :
